@@ -319,6 +319,7 @@ def check(ctx):
     replay_sim(ctx, "simulate-nf2", consts(3, 2, 30), 3000 if thorough else 500, 40)
     replay_sim(ctx, "simulate-nf1", consts(3, 1, 30), 3000 if thorough else 300, 40)
     check_threads(ctx, thorough)
+    check_histories(ctx, thorough)
     if thorough:
         from .. import apalache
         apalache.discharge(ctx, "WrapCore")
@@ -453,9 +454,123 @@ def check_threads(ctx, thorough):
         raise core.Machinery("linearizability run failed: %s" % r.violated)
 
 
+# ---------------------------------------------------------------------------
+# every short history of one device: code -> specification
+# ---------------------------------------------------------------------------
+# The transition tours visit every transition of the model, but what the code
+# remembers beyond the model's state (which reminders it considers registered,
+# what a previous quiet sample left behind) depends on the whole history.  So:
+# every sequence of what ONE device shows at each of n successive nowrap=True
+# calls -- absent, or a counter value 0..2 -- next to a second device that stays
+# put, is run through the public API and the recorded answers are validated by
+# TLC against WrapNumbers.tla (the sequential case of WrapNumbersTrace.tla).
+
+SYMS = ("A", 0, 1, 2)
+
+
+def history_events(name, seq):
+    k0, k1 = ("e0", "e1") if name == "net" else ("sda1", "sda")
+    ev = [{"op": "k_set", "name": name, "key": k1, "val": [1]}]
+    cur = "A"
+    for s_ in seq:
+        if s_ != cur:
+            if s_ == "A":
+                ev.append({"op": "k_del", "name": name, "key": k0})
+            else:
+                ev.append({"op": "k_set", "name": name, "key": k0, "val": [s_]})
+            cur = s_
+        ev.append({"op": "call", "name": name, "nowrap": True, "form": "per", "empty": False})
+    return ev
+
+
+def history_chunk(job):
+    """Forked: run the histories on the real code, fill in the answers."""
+    name, seqs = job
+    w, ps = template()
+    ad = Adapter(w, ps, 1)
+    fn = ps.net_io_counters if name == "net" else ps.disk_io_counters
+    perkw = "pernic" if name == "net" else "perdisk"
+    out = []
+    for seq in seqs:
+        fn.cache_clear()
+        ad.raw = {"net": {}, "disk": {}}
+        ad.sync()
+        evs = history_events(name, seq)
+        for e in evs:
+            if e["op"] != "call":
+                ad.step(e)
+                continue
+            try:
+                got = fn(**{perkw: True, "nowrap": True})
+                e["res"] = {k: unscale(name, tuple(v), 1) for k, v in got.items()}
+            except BaseException as ex:  # noqa: BLE001
+                e["res"] = {"exception": [type(ex).__name__]}
+        out.append(evs)
+    return out
+
+
+def check_histories(ctx, thorough):
+    import itertools
+    n = 7 if thorough else 6
+    seqs = [q for q in itertools.product(SYMS, repeat=n) if q[0] != "A"]
+    jobs = []
+    for name in ("net", "disk"):
+        mine = seqs if (thorough or name == "net") else seqs[::7]
+        jobs += [(name, mine[i::8]) for i in range(8)]
+    res = forkpool.map_fork(history_chunk, jobs, timeout=1500)
+    traces = []
+    for st, val in res:
+        if st != "ok":
+            raise core.Machinery("history driver failed: %s" % (val,))
+        traces.extend(val)
+    d = tlc.scratch()
+    tf = os.path.join(d, "traces.ndjson")
+    with open(tf, "w") as f:
+        for t in traces:
+            f.write(json.dumps({"pre": t, "thr": {"A": [], "B": []}}) + "\n")
+    cfg = os.path.join(d, "t.cfg")
+    tlc.write_cfg(cfg, consts(2, 1, 99), init="TInit", next_="TNext", constraints=["Progress"], postcondition="AllLinearizable")
+    r = tlc.run("WrapNumbersTrace", cfg, workers=1, env={"TRACE_FILE": tf}, timeout=1500)
+    ctx.tlc("short-histories", r, {"calls": n, "symbols": "absent,0,1,2", "histories": len(traces)})
+    shutil.rmtree(d, ignore_errors=True)
+    ctx.cov["traces_validated_against_impl"] += len(traces)
+    ctx.cov.setdefault("replay", {})["short-histories"] = {"histories": len(traces), "calls_each": n}
+    ctx.cov["evaluations"] += len(traces)
+    ctx._distinct.update(hash(json.dumps(t)) for t in traces)
+    import re
+    m = re.search(r'<<\s*"REJECTED",\s*(\{.*?\})\s*>>', r.out, re.S)
+    if m:
+        ids = tlc.parse_value(m.group(1))
+        ctx.cov["replay"]["short-histories"]["rejected"] = len(ids)
+        for i in sorted(ids)[:3]:
+            t = traces[i - 1]
+            ctx.disagree("history:%s:rejected" % t[0]["name"],
+                         "the answers recorded along this history are not those of the specification: %s" % json.dumps(t)[:1500],
+                         {"history": t})
+    elif r.violated:
+        raise core.Machinery("history validation failed: %s" % r.violated)
+    elif r.distinct < len(traces):
+        raise core.Machinery("history validation did not consume the traces")
+
+
 def replay(ctx, data):
     """Re-run a recorded behaviour on the working tree; True if code and
     specification still disagree."""
+    if "history" in data.get("replay", {}):
+        t = data["replay"]["history"]
+        name = t[0]["name"]
+        seq, cur = [], "A"
+        for e in t[1:]:
+            if e["op"] == "k_del":
+                cur = "A"
+            elif e["op"] == "k_set":
+                cur = e["val"][0]
+            else:
+                seq.append(cur)
+        st, val = forkpool.fork_call(history_chunk, (name, [tuple(seq)]))
+        same = st == "ok" and [e.get("res") for e in val[0]] == [e.get("res") for e in t]
+        print("  -> the working tree", "gives the same answers as recorded" if same else "answers differently now")
+        return same
     if "events" not in data.get("replay", {}):
         return False
     st, val = forkpool.fork_call(run_events, (data['replay'].get('nf', 1), data['replay']['events']))
